@@ -183,9 +183,14 @@ class Context:
                     print("KNOWN-FINDING: property=%s %s [%s] %s" % (self.pid, f["id"], f["signature"], f.get("what", "")))
                 self.known += 1
                 return False
+        self.sig_count = getattr(self, "sig_count", {})
+        self.sig_count[signature] = self.sig_count.get(signature, 0) + 1
         if signature in self.viol_sigs:
             self.viol += 1
             return True
+        if os.environ.get("VERIF_SIGS"):
+            self.sig_what = getattr(self, "sig_what", {})
+            self.sig_what[signature] = what
         self.viol_sigs.add(signature)
         self.viol += 1
         if len(self.viol_sigs) > 5:      # keep the output readable: the first five distinct signatures are reported
@@ -226,6 +231,9 @@ class Context:
             os.rmdir(os.path.join(VERIF, ".work"))
         except OSError:
             pass
+        if os.environ.get("VERIF_SIGS"):     # debugging aid: every distinct signature with its count
+            for sg, n in sorted(getattr(self, "sig_count", {}).items()):
+                print("SIG %5d %s\n          %s" % (n, sg, getattr(self, "sig_what", {}).get(sg, "")[:int(os.environ["VERIF_SIGS"]) if os.environ["VERIF_SIGS"].isdigit() else 300]))
         print("%s %s tier=%s seed=%d states=%d transitions=%d traces=%d violations=%d known=%d wall=%.1fs" % (
             "FAIL" if self.viol else "OK", self.pid, self.tier, self.seed, self.states, self.transitions,
             self.traces_validated, self.viol, self.known, time.time() - self.t0))
